@@ -15,8 +15,12 @@ ASSUMPTIONS = [
     'unknown keys are drawn from the key grammar minus the six names the reader looks up; values from the value grammar (plain integers are expected back as integers)',
 ]
 KNOWN = {'encoding', 'length', 'indent', 'line_endings', 'format', 'version'}
-KEYS = ['x', 'X-Custom', 'future_option', 'a1', 'mimetype2', 'Length', 'lengths', 'encodin', 'z-9_', 'type2', 'vendor-ext']
-VALUES = ['1', 'abc', '007', '-5', 'text/plain', 'a.b_c-d', 'v' * 300, 'w' * 1100, 'x' * 5000, '0', 'utf-8', 'unix', '12345678901234567890123', 'A/B/c']
+KEYS = ['x', 'X-Custom', 'future_option', 'a1', 'mimetype2', 'Length', 'lengths', 'encodin', 'z-9_', 'type2', 'vendor-ext',
+        # names that are identifiers inside the library (parameters, attributes): an unknown option
+        # is data, whatever it is called
+        'keep_bytes', 'self', 'preserve_trailing_newline', 'fp', 'content', 'section', 'options', 'kwargs', 'linenum',
+        'level', 'type', 'text', 'metadata', 'diff', 'valid_sections', 'chunk_size', 'newline', 'lines']
+VALUES = ['1', 'yes', 'abc', '007', '-5', 'text/plain', 'a.b_c-d', 'v' * 300, 'w' * 1100, 'x' * 5000, '0', 'utf-8', 'unix', '12345678901234567890123', 'A/B/c']
 
 
 def extend(rng, data):
